@@ -80,10 +80,16 @@ def rule_redef(chk, pc):
     fsm = f.fn("find_single_macro", PP)
     if fsm:
         ok = False
-        for c in F.walk(fsm["thir"]):
-            is_eq = (c.get("k") == "Binary" and c.get("op") == "Eq") or (c.get("k") == "Call" and short(c.get("fn") or "") == "eq")
-            if is_eq and any(x.get("name") == "name" for x in F.exprs(c, "Field")):
-                ok = True
+        for n in F.exprs(fsm["thir"], "If"):
+            c = F.strip(n["cond"])
+            # `if id == macro_def.name { .. use .. }` or `if id != macro_def.name { continue }`: the equal case is the one used
+            is_cmp = (c.get("k") == "Binary" and c.get("op") in ("Eq", "Ne")) or (c.get("k") == "Call" and short(c.get("fn") or "") in ("eq", "ne"))
+            if not (is_cmp and any(x.get("name") == "name" and "Macro" in x.get("of", "") for x in F.exprs(c, "Field"))):
+                continue
+            eq = (c.get("op") == "Eq") if c.get("k") == "Binary" else short(c.get("fn") or "") == "eq"
+            uses = any(a.get("variant") == "User" for a in F.exprs(n["then"], "Adt"))
+            skips = any(x.get("k") == "Continue" for x in F.walk(n["then"])) and not uses
+            ok = ok or (eq and uses) or (not eq and skips)
         chk.ob("C12.redef/lookup-by-name", ok, "a macro is found by `id == macro_def.name`" if ok else "find_single_macro no longer compares the identifier with the macro name", where(fsm))
 
 
@@ -159,22 +165,24 @@ def rule_args(chk):
     if chk.anchor("C12.anchor/apply_single_macro", asm, "apply_single_macro"):
         # body substitution: if let MacroArg(i) = token.0 { output.extend_from_slice(&args[i]) } else { output.push(token.clone()) }
         ok = False
-        for n in F.exprs(asm["thir"], "If"):
-            c = F.strip(n["cond"])
-            if c.get("k") == "Let" and any(p.get("variant") == "MacroArg" for p in F.walk(c["pat"]) if p.get("k") == "Variant"):
-                bind = [i for i, nm, pth in F.pat_binds(c["pat"])]
-                ext = [cc for cc in F.exprs(n["then"], "Call") if short(cc.get("fn") or "") in ("extend_from_slice", "extend")]
+        for body_fn in F.family(f, asm, depth=1):
+            for br in F.branches(body_fn["thir"]):
+                arg_arms = [(pt, bd) for pt, bd in br["arms"] if any(p.get("variant") == "MacroArg" for p in F.walk(pt) if isinstance(p, dict) and p.get("k") == "Variant")]
+                other = [(pt, bd) for pt, bd in br["arms"] if F.pat_is_catchall(pt)]
+                if len(arg_arms) != 1 or len(other) != 1 or len(br["arms"]) != 2:
+                    continue
+                bind = [i for i, nm, pth in F.pat_binds(arg_arms[0][0])]
+                ext = [cc for cc in F.exprs(arg_arms[0][1], "Call") if short(cc.get("fn") or "") in ("extend_from_slice", "extend")]
                 idx_ok = False
                 for cc in ext:
                     for ix in list(F.exprs(cc, "Index")) + [x for x in F.exprs(cc, "Call") if short(x.get("fn") or "") == "index"]:
                         iv = F.leftmost_var(ix["i"] if ix.get("k") == "Index" else ix["args"][1])
                         av = F.leftmost_var(ix["e"] if ix.get("k") == "Index" else ix["args"][0])
-                        apar = [q.get("pat", {}).get("id") for q in asm["params"] if "Vec<" in q.get("ty", "") or "[" in q.get("ty", "")]
-                        if iv is not None and iv["id"] in bind and av is not None and (av["id"] in apar or "PreprocessToken" in av.get("ty", "")):
+                        if iv is not None and iv["id"] in bind and av is not None and "PreprocessToken" in av.get("ty", ""):
                             idx_ok = True
-                push = [cc for cc in F.exprs(n.get("else", {}), "Call") if short(cc.get("fn") or "") == "push"]
+                push = [cc for cc in F.exprs(other[0][1], "Call") if short(cc.get("fn") or "") == "push"]
                 clone_tok = any(short(x.get("fn") or "") == "clone" for cc in push for x in F.exprs(cc, "Call"))
-                ok = idx_ok and bool(push) and clone_tok
+                ok = ok or (idx_ok and bool(push) and clone_tok)
         chk.ob("C12.args/substitution", ok, "MacroArg(i) is replaced by args[i]; other tokens are copied" if ok else
                "the macro body substitution no longer replaces MacroArg(i) by args[i] and copies the remaining tokens unchanged", where(asm))
     mp = f.fn("parse", PP, self_ty="Macro")
@@ -189,6 +197,22 @@ def rule_args(chk):
                         if short(a["adt"]) == "Token" and a.get("variant") == "MacroArg":
                             v = F.leftmost_var(a["fields"][0]["e"])
                             ok_arg = v is not None and binds.get(("0",)) == v["id"]
+            # the same index obtained with `params.iter().position(|p| id == *p)`: MacroArg(<the Some(..) payload>)
+            pos_binds = set()
+            for mm in list(F.exprs(cb["thir"], "Match")) + [x for x in F.exprs(cb["thir"], "If") if F.strip(x["cond"]).get("k") == "Let"]:
+                if mm.get("k") == "Match":
+                    sc, pats = F.strip(mm["scrut"]), [a_["pat"] for a_ in mm["arms"]]
+                else:
+                    sc, pats = F.strip(F.strip(mm["cond"])["e"]), [F.strip(mm["cond"])["pat"]]
+                if sc.get("k") == "Call" and short(sc.get("fn") or "") == "position":
+                    for pt in pats:
+                        if F.pat_variant(pt) == ("Option", "Some"):
+                            pos_binds |= {i for i, nm, pth in F.pat_binds(pt)}
+            for a in F.exprs(cb["thir"], "Adt"):
+                if short(a["adt"]) == "Token" and a.get("variant") == "MacroArg" and pos_binds:
+                    v = F.leftmost_var(a["fields"][0]["e"])
+                    if v is not None and v["id"] in pos_binds:
+                        ok_arg = True
             for a in F.exprs(cb["thir"], "Adt"):
                 if short(a["adt"]) == "Token" and a.get("variant") == "Concat":
                     ok_cat = True
@@ -223,12 +247,12 @@ def rule_once(chk):
                 name_param = i_
                 break
         keys = []
-        for c in F.exprs(ld["thir"], "Call"):
-            nm = short(c.get("fn") or "")
-            if nm in ("get", "insert", "entry", "contains_key") and c.get("args") and "HashMap" in (c.get("fn") or "") and \
-                    "FileId" in (c["args"][0].get("ty", "") + F.strip(c["args"][0]).get("ty", "")):
-                org = tr.trace(ld, c["args"][1], ())
-                keys.append((nm, org))
+        def is_cache_access(c):
+            return short(c.get("fn") or "") in ("get", "insert", "entry", "contains_key") and c.get("args") and "HashMap" in (c.get("fn") or "") and \
+                "FileId" in (c["args"][0].get("ty", "") + F.strip(c["args"][0]).get("ty", ""))
+        for args_, c in F.calls_through_wrappers(f, ld, is_cache_access):
+            org = tr.trace(ld, args_[1], ())
+            keys.append((short(c.get("fn") or ""), org))
         ok = name_param is not None and len(keys) >= 2 and all(o and all(x[0] == "param" and x[2] == name_param and not x[3] for x in o) for _, o in keys)
         chk.ob("C12.once/one-id-per-name", ok, "the file-id cache is read and written under the requested name (%d accesses)" % len(keys) if ok else
                "the file-id cache of FileLoader::load is keyed by %s instead of the requested file name: one file can be registered under two ids, and #pragma once (recorded per id) then lets it be pasted twice"
